@@ -105,6 +105,16 @@ def run(ctx, st):
     for k, par in enumerate(cs.params):
         core = sweep.strip_comments(par)
         if ctx.symbolic:
+            if len(core) == 1 and isinstance(core[0], str) and _NUM.fullmatch(core[0]) and k < 4:
+                # a constant chosen on this path (e.g. '-1' for an id of 0xffffffff): the path condition must pin the word
+                # to a value that renders that way; a bare 0 stands for 'nothing set' in flag positions and is not judged
+                v = int(core[0], 0)
+                if v != 0:
+                    t = term(a[k])
+                    lo32 = z3.Extract(31, 0, t)
+                    forms = _forms(a[k]) + [z3.SignExt(W - 32, lo32)]
+                    ctx.check('%s/pos%d' % (L, k), Or(*[mkb(f == z3.BitVecVal(v, W)) for f in forms]),
+                              'position %d shows the constant %s' % (k, core[0]))
             nums = [at for at in sweep.atoms_of(core) if at.is_numeric()]
             for at in nums:
                 if k >= 4:
@@ -119,7 +129,9 @@ def run(ctx, st):
                 if k >= 4:
                     ctx.check('%s/pos%d' % (L, k), False, 'numeric parameter beyond the four recorded arguments')
                 else:
-                    ok = any(lit in (str(f), hex(f)) for f in _cforms(a[k]))
+                    lo = a[k] & 0xffffffff
+                    s32 = lo - (1 << 32) if lo >> 31 else lo
+                    ok = any(lit in (str(f), hex(f)) for f in _cforms(a[k]) + ([s32] if lit == core_text(core) else []))
                     # a literal that is part of the decoder's fixed text (e.g. a literal 0 for an empty flag list)
                     # cannot be told from a rendered word concretely; the symbolic run only judges rendered words
                     ctx.check('%s/pos%d' % (L, k), ok, 'position %d shows %s for a%d=%#x' % (k, lit, k, a[k]))
@@ -133,6 +145,10 @@ def run(ctx, st):
         cond = And(*[sweep.pieces_equal(p, q) for p, q in zip(cs.params, cs2.params)]) if same else False
         ctx.check(L + '/call-independent-of-END', cond)
     ctx.reach()
+
+
+def core_text(core):
+    return ''.join(x for x in core if isinstance(x, str)).strip()
 
 
 import re
